@@ -1,48 +1,138 @@
 /-
   C07 — the OpenFlow parser is total: any bytes give a message or an error.
 
-  Model: `OFV.Model.parse depth b` (openflow13.Parse with its deferred recover()).  Outcomes: `.ok` message,
-  `.err`, `.panic`, `.spin` (a decoder loop that never ends).  `Res.Total r` = `r` is `.ok _` or `.err`.
+  Model: `OFV.Model.parse depth b` (openflow13.Parse with its deferred recover()).  Outcomes: `.ok` message, `.err`,
+  `.panic`, `.spin` (a decoder loop that never ends).  `Res.Total r` = `r` is `.ok _` or `.err`.
 
-  FINDING (proved below, and reproduced on the Go library with the harness: `parse <hex> 65544 => spin`):
-  the property is FALSE for arbitrary byte strings.
-    * `C07_hello_frame_spins`: every Hello frame of 65544 bytes whose first element is a version bitmap makes Parse
-      loop for ever (HelloElemVersionBitmap.Len() = 4 + 4·16383 wraps to 0 in uint16, `next += int(v.Len())` stops
-      advancing while `h.Elements` grows without bound).
-  A second defect, reachable with a frame of the legal maximum size (65535 bytes) when the buffer has ≥ 67 bytes of
-  spare capacity, was found while attempting the proof and reproduced on the Go library (`=> spin`), see the comment
-  at `FlowStatsInstrLoopOK` below; it is the reason why the total-ness theorem needs a bound on the CAPACITY.
+  FINDINGS — the property as stated ("given any byte string whatsoever") is FALSE:
+    1. `C07_hello_frame_spins` (proved here; reproduced on the Go library: `parse <hex> 65544 => spin`).
+       Every Hello frame of 65544 bytes whose first element is a version bitmap makes Parse loop for ever:
+       HelloElemVersionBitmap.Len() = 4 + 4·16383 wraps to 0 in uint16, `next += int(v.Len())` in
+       Hello.UnmarshalBinary stops advancing while `h.Elements` grows without bound.
+    2. (found while proving `FlowStats_decodeInstrs_no_spin`; reproduced on the Go library, not formalised here)
+       a multipart FlowStats reply of the LEGAL maximum size, 65535 bytes, whose buffer has ≥ 67 bytes of spare capacity
+       (the stream's pooled bytes.Buffer always has spare capacity) makes Parse loop for ever: an apply-actions
+       instruction with 4077 output actions and one learn action whose last spec is read through the capacity
+       (`data[2:2+k]`) has actions of total size 65528, InstrActions.Len() = 8 + 65528 wraps to 0, and
+       `n += int(instr.Len())` in FlowStats.UnmarshalBinary — the one instruction loop without a zero-length guard —
+       stops advancing.  Replay: harness case `parse <65535-byte frame + 80 spare bytes> 65535 => spin`
+       (with exact capacity: `=> err`).  This is why the theorem below bounds the CAPACITY, not the length.
 
-  What is proved:
-    * `C07_parse_no_panic`      Parse never panics (unconditionally: recover()).
-    * per decoder `…_no_spin`    every decoder loop reachable from Parse advances its cursor on every successful
+  What is proved (no assumption on length fields, types or nesting):
+    * `C07_parse_no_panic`       Parse never panics, unconditionally (recover()).
+    * `…_no_spin`                every decoder loop reachable from Parse advances its cursor on every successful
                                  iteration and has enough fuel: hello elements, version bitmaps, match fields, action
-                                 lists, nested conntrack actions, learn specs, instructions of a FlowMod,
-                                 SwitchFeatures ports, TLV table maps, bundle properties, multipart records.
-    * `C07_parse_total_partial`  for every nesting depth and every well-formed slice whose capacity is at most 65535:
-                                 Parse returns a message or an error — ASSUMING
-                                   hEth : the Ethernet decoder (payload of PacketIn; protocol decoders are the subject
-                                          of C08, on which this file does not depend) never spins, and
-                                   hFS  : `FlowStatsInstrLoopOK`, the instruction loop of a FlowStats record in a
-                                          multipart reply terminates when the capacity is at most 65519.
-  Not assumed anywhere: validity of length fields, of types, of nesting.
+                                 lists, nested conntrack actions, learn specs, instructions (FlowMod, FlowStats),
+                                 SwitchFeatures ports, TLV table maps, bundle properties, multipart records,
+                                 nested Parse (BundleAdd).
+    * `C07_parse_total_partial`  for every nesting depth and every well-formed slice of a buffer of at most 65535
+                                 bytes, Parse returns a message or an error — ASSUMING only
+                                   hEth : the Ethernet decoder (payload of PacketIn) never spins on a well-formed slice.
+                                 (Protocol decoders are the subject of C08, on which this file must not depend;
+                                 `C08_Ethernet_total` implies hEth.)
+    * `C07_parse_not_total`      the unrestricted statement `∀ depth b, b.WF → Res.Total (parse depth b)` is false.
+  The bound 65535 on the capacity is sharp up to the 67 bytes of finding 2; frames longer than 65535 bytes cannot be
+  produced by the message stream (16-bit header length) but can be handed to the exported `Parse`.
 -/
 import OFV.Model.All
-import OFV.Lemmas.ParseMsg
+import OFV.Lemmas.ParseFlowStats
+import OFV.Lemmas.ParseSpin
 namespace OFV.Props.C07
 open OFV OFV.Go OFV.Model
+
+/-! ### no panic -/
 
 /-- Parse never panics: the deferred recover() turns every panic of every decoder into an error. -/
 theorem C07_parse_no_panic (depth : Nat) (b : Slice) : parse depth b ≠ .panic := parse_no_panic depth b
 
-/-- Partial total-ness of Parse: a message or an error for every frame in a buffer of at most 65535 bytes, given that
-    the Ethernet decoder and the FlowStats instruction loop terminate (the two facts not established here).
-    Full statement aimed at (false, see `C07_hello_frame_spins`): `∀ depth b, b.WF → Res.Total (parse depth b)`. -/
-theorem C07_parse_total_partial
-    (hEth : ∀ recv d, PEthernet.unmarshal recv d ≠ .spin) (hFS : FlowStatsInstrLoopOK)
+/-! ### decoder by decoder: no endless loop -/
+
+/-- Header: straight-line code. -/
+theorem Header_unmarshal_no_spin (recv : V) (d : Slice) : Header.unmarshal recv d ≠ .spin :=
+  (Header_unmarshal_ns recv d).1
+
+/-- The bitmap loop of a version-bitmap hello element advances by 4 bytes per bitmap. -/
+theorem HelloElemVersionBitmap_unmarshal_no_spin (recv : V) (d : Slice) : HelloElemVersionBitmap.unmarshal recv d ≠ .spin :=
+  (HelloElemVersionBitmap_unmarshal_post recv d).1
+
+/-- The element loop of Hello terminates on every frame of at most 65535 bytes (it does not on longer ones, see
+    `C07_hello_frame_spins`). -/
+theorem Hello_unmarshal_no_spin (recv : V) (d : Slice) (h : d.len ≤ 65535) : Hello.unmarshal recv d ≠ .spin :=
+  (Hello_unmarshal_ns recv d h).1
+
+/-- The field loop of Match terminates: every decoded field reports between 4 and 518 bytes. -/
+theorem Match_unmarshal_no_spin (recv : V) (d : Slice) : Match.unmarshal recv d ≠ .spin :=
+  (Match_unmarshal_ns recv d).1
+
+/-- DecodeAction at every nesting depth: the leaf kinds are straight-line code, the learn-spec loop advances by at
+    least 2 bytes, the nested-action loop of a conntrack action refuses an action of size 0. -/
+theorem DecodeAction_no_spin (depth : Nat) (d : Slice) : DecodeAction depth d ≠ .spin := (DecodeAction_ns depth d).1
+
+/-- The action-list loop (InstrActions, Bucket) leaves on a decode error or an action of size 0. -/
+theorem decodeActions_no_spin (d : Slice) (limit n0 : Nat) (xs0 : List V) : InstrAux.decodeActions d limit n0 xs0 ≠ .spin :=
+  (decodeActions_ns d limit n0 xs0).1
+
+/-- DecodeInstr: all four instruction kinds. -/
+theorem DecodeInstr_no_spin (d : Slice) : DecodeInstr d ≠ .spin := (DecodeInstr_ns d).1
+
+/-- The instruction loop of FlowMod refuses an instruction of size 0. -/
+theorem FlowMod_unmarshal_no_spin (recv : V) (d : Slice) : FlowMod.unmarshal recv d ≠ .spin := (FlowMod_unmarshal_ns recv d).1
+
+theorem FlowRemoved_unmarshal_no_spin (recv : V) (d : Slice) : FlowRemoved.unmarshal recv d ≠ .spin :=
+  (FlowRemoved_unmarshal_ns recv d).1
+
+/-- The ports loop of SwitchFeatures advances by 64 bytes per port. -/
+theorem SwitchFeatures_unmarshal_no_spin (recv : V) (d : Slice) : SwitchFeatures.unmarshal recv d ≠ .spin :=
+  (SwitchFeatures_unmarshal_ns recv d).1
+
+/-- The TLV-map loops (TLVTableMod, TLVTableReply) advance by 8 bytes per entry. -/
+theorem TLVTableMod_unmarshal_no_spin (recv : V) (d : Slice) : TLVTableMod.unmarshal recv d ≠ .spin :=
+  (TLVTableMod_unmarshal_ns recv d).1
+theorem TLVTableReply_unmarshal_no_spin (recv : V) (d : Slice) : TLVTableReply.unmarshal recv d ≠ .spin :=
+  (TLVTableReply_unmarshal_ns recv d).1
+
+/-- BundleAdd: the property loop advances by at least 8 bytes per property when the data is at most 65528 bytes long
+    (it always is: the payload of an experimenter message is `data[16:Header.Length]`), given that the nested Parse
+    does not spin. -/
+theorem BundleAdd_unmarshalWith_no_spin (parseF : Slice → R V) (childLen : MsgLenF)
+    (hparse : ∀ d : Slice, d.WF → d.buf.length ≤ 65535 → parseF d ≠ .spin)
+    (recv : V) (d : Slice) (hlen : d.len ≤ 65528) (hcap : d.buf.length ≤ 65535) :
+    BundleAdd.unmarshalWith parseF childLen recv d ≠ .spin :=
+  (BundleAdd_unmarshalWith_ns parseF childLen (fun x h1 h2 => NS.of_ne (hparse x h1 h2)) recv d hlen hcap).1
+
+/-- The instruction loop of a FlowStats record — the only loop of the parser that advances by an unchecked `Len()` —
+    terminates when the record lies in a buffer of at most 65519 bytes (= 65535 − the 16 bytes of the multipart
+    header) and the instructions start at offset 48 or later: every decoded action then has a stable `Len()` of at
+    most capacity + 48, the cursor of an InstrActions stays below 65536, and `InstrActions.Len()` cannot wrap to 0. -/
+theorem FlowStats_decodeInstrs_no_spin (d : Slice) (limit n0 : Nat) (is0 : List V) (hwf : d.WF)
+    (hcap : d.buf.length ≤ 65519) (hn0 : 48 ≤ n0) : FlowStats.decodeInstrs d limit n0 is0 ≠ .spin :=
+  (decodeInstrs_ns d limit n0 is0 hwf hcap hn0).1
+
+/-- MultipartReply (decoded into `new(MultipartReply)` as Parse does): the record loop refuses a record of size 0 and
+    runs below the 16-bit header length. -/
+theorem MultipartReply_unmarshal_no_spin (d : Slice) (hwf : d.WF) (hcap : d.buf.length ≤ 65535) :
+    MultipartReply.unmarshalWith anyLenM MultipartReply.zero d ≠ .spin :=
+  (MultipartReply_unmarshalWith_ns flowStatsInstrLoopOK d hwf hcap).1
+
+/-- PacketIn, given that the Ethernet decoder does not spin. -/
+theorem PacketIn_unmarshal_no_spin (hEth : ∀ recv (d : Slice), d.WF → PEthernet.unmarshal recv d ≠ .spin)
+    (recv : V) (d : Slice) (hwf : d.WF) : PacketIn.unmarshal recv d ≠ .spin :=
+  (PacketIn_unmarshal_ns (fun r x h => NS.of_ne (hEth r x h)) recv d hwf).1
+
+/-! ### Parse -/
+
+/-- Parse does not loop for ever on a well-formed frame in a buffer of at most 65535 bytes. -/
+theorem C07_parse_no_spin (hEth : ∀ recv (d : Slice), d.WF → PEthernet.unmarshal recv d ≠ .spin)
+    (depth : Nat) (b : Slice) (hwf : b.WF) (hcap : b.cap ≤ 65535) : parse depth b ≠ .spin :=
+  (parse_ns' (fun r d h => NS.of_ne (hEth r d h)) depth b ⟨hwf, hcap⟩).1
+
+/-- Total-ness of Parse: a message or an error for every well-formed slice of a buffer of at most 65535 bytes and every
+    nesting depth, given only that the Ethernet decoder terminates (hEth; it follows from `C08_Ethernet_total`).
+    Full statement aimed at — false, see `C07_parse_not_total`: `∀ depth b, b.WF → Res.Total (parse depth b)`.
+    Remaining hypotheses: hEth (not proved here by assignment), and the capacity bound (necessary: findings 1, 2). -/
+theorem C07_parse_total_partial (hEth : ∀ recv (d : Slice), d.WF → PEthernet.unmarshal recv d ≠ .spin)
     (depth : Nat) (b : Slice) (hwf : b.WF) (hcap : b.cap ≤ 65535) : Res.Total (parse depth b) := by
-  have hsmall : SmallFrame b := ⟨by unfold Slice.WF at hwf; unfold Slice.cap at hcap; omega, hcap⟩
-  have hns := (parse_ns (fun r d => NS.of_ne (hEth r d)) hFS depth b hsmall).1
+  have hns := C07_parse_no_spin hEth depth b hwf hcap
   have hnp := C07_parse_no_panic depth b
   cases h : parse depth b with
   | ok v => exact Or.inl ⟨v, rfl⟩
@@ -50,9 +140,11 @@ theorem C07_parse_total_partial
   | panic => exact absurd h hnp
   | spin => exact absurd h hns
 
-/-- the hypotheses of `C07_parse_total_partial` on the frame are satisfiable -/
-example : (Slice.exact [4, 0, 0, 8, 0, 0, 0, 1]).WF ∧ (Slice.exact [4, 0, 0, 8, 0, 0, 0, 1]).cap ≤ 65535 := by
-  exact ⟨Slice.exact_wf _, by decide⟩
+/-- the hypotheses on the frame are satisfiable: an 8-byte echo request in an exact buffer -/
+example : (Slice.exact [4, 2, 0, 8, 0, 0, 0, 1]).WF ∧ (Slice.exact [4, 2, 0, 8, 0, 0, 0, 1]).cap ≤ 65535 :=
+  ⟨Slice.exact_wf _, by decide⟩
+
+/-! ### the property is false without the bound -/
 
 /-- COUNTEREXAMPLE (genuine defect).  Parse loops for ever on every 65544-byte Hello frame
     `ver 00 l1 l2 xid(4) | 00 01 e1 e2 | 65532 more bytes`: the version-bitmap element swallows the remaining 65536
@@ -62,7 +154,7 @@ theorem C07_hello_frame_spins (ver l1 l2 x1 x2 x3 x4 e1 e2 : UInt8) (payload : B
     parse depth (Slice.exact ([ver, 0, l1, l2, x1, x2, x3, x4, 0, 1, e1, e2] ++ payload)) = .spin :=
   Hello_spin ver l1 l2 x1 x2 x3 x4 e1 e2 payload hp depth
 
-/-- … for instance the all-zero payload; so `∀ b, b.WF → Res.Total (parse depth b)` is false -/
+/-- … for instance with an all-zero payload: `∀ depth b, b.WF → Res.Total (parse depth b)` is false. -/
 theorem C07_parse_not_total : ¬ ∀ (depth : Nat) (b : Slice), b.WF → Res.Total (parse depth b) := by
   intro h
   have hs := C07_hello_frame_spins 4 0 8 0 0 0 0 0 8 (List.replicate 65532 0) List.length_replicate 0
